@@ -1,6 +1,6 @@
 (* C15 -- bench reader and writer are faithful (line-AST level).  Statements only; proofs in Proofs/BenchProofs.v. *)
 From stdpp Require Import strings gmap sets.
-From CG Require Import Model.Bench Model.BenchSpec Model.Lint Proofs.BenchProofs Proofs.BenchRoundProofs Proofs.BenchReadProofs Proofs.BenchFinal Model.BenchScan Proofs.RegexProofs Proofs.RegexSound.
+From CG Require Import Model.Bench Model.BenchSpec Model.Lint Proofs.BenchProofs Proofs.BenchRoundProofs Proofs.BenchReadProofs Proofs.BenchFinal Model.BenchScan Proofs.RegexProofs Proofs.RegexSound Proofs.RegexCanon Proofs.BenchTextFinal.
 Open Scope string_scope.
 
 (* ---- obligations on the regenerated tables of io.py ---- *)
@@ -144,12 +144,34 @@ Theorem C15_findall_sound : ∀ r s cs, cs ∈ findall r s →
 Proof. exact findall_sound. Qed.
 Print Assumptions C15_findall_sound.
 
-(* FULL character-level statement for the canonical rendering: the four scans recover the line list.  Proved: the four
-   statement theorems above (every statement is recognised where it starts and decoded correctly).  Missing: that no scan
-   matches anywhere else in a canonical text (no false match inside or across statements) and the composition over findall;
-   decided per generated well-formed line list by Run_C15.agree, which also compares the scan of every generated text
-   (random layout, comments) with the line list. *)
-Definition C15_scan_canonical_full : Prop := ∀ ls, wfb ls = true → scan_codes (render ls) = by_pass ls.
+(* no false matches: inside (or at the newline of) a canonical statement of another kind a scan pattern matches nowhere,
+   whatever text follows *)
+Theorem C15_nomatch_gate : ∀ l a b rest, canon l → (∀ n g ops, l ≠ BGate n g ops) → (render_line l ++ [10] = a ++ b)%list → b ≠ [] →
+  match_here rd_re_gate (b ++ rest) = None.
+Proof. exact nomatch_gate. Qed.
+Print Assumptions C15_nomatch_gate.
+
+(* THE character-level theorem for the canonical rendering (one statement per line, single blanks -- what
+   circuit_to_bench prints, DFF lines alike): for every well-formed line list the comment removal and the four findall scans
+   of the regex model, with the reader's post-processing, recover exactly the line list (statements in the order the
+   reader consumes them) *)
+Theorem C15_scan_canonical : ∀ ls, wfb ls = true → scan_codes (render ls) = by_pass ls.
+Proof. exact scan_canonical. Qed.
+Print Assumptions C15_scan_canonical.
+
+(* the reader consumes a line list pass by pass: it reads by_pass ls exactly like ls, for EVERY line list (this is what makes the
+   comparison `bench_scan text = by_pass ls` of Run_C15.agree meaningful) *)
+Theorem C15_read_by_pass : ∀ name ls, bench_read name (by_pass ls) = bench_read name ls.
+Proof. exact read_by_pass. Qed.
+Print Assumptions C15_read_by_pass.
+
+(* END TO END at character level, for canonical texts: comment removal + four regex scans + post-processing + four passes
+   through the construction API on the text of any well-formed line list give the closed-form circuit, hence (with
+   C15_bench_read_denotes / the closed-form theorems) the circuit the text denotes *)
+Theorem C15_read_text_canonical : ∀ name ls, wfb ls = true →
+  bench_read_text name (text_of (render ls)) = Ok (bench_closed name ls).
+Proof. exact read_text_canonical. Qed.
+Print Assumptions C15_read_text_canonical.
 
 (* ---- non-vacuity: a well-formed text with a repeated operand, a constant-producing line and two chained flops ---- *)
 Definition ex_lines := [BOutput "y"; BDff "q1" "q2"; BGate "y" "XOR" ["a"; "a"; "q1"]; BGate "k" "xnor" ["a"; "a"];
